@@ -43,10 +43,10 @@ Theorem C13_pinned_code_deadlocked :
 Proof. exact pinned_code_deadlocks. Qed.
 
 (* the structural facts the model rests on, REGENERATED from parallel_map.py on every run: the worker catches a task's exception and always puts exactly one
-   (index, result) per task taken (so `catch = true` is the model of the source), tasks are enqueued with their index in order, __call__ takes exactly n_tasks
+   (index, result) per task taken (so `catch = true` is the model of the source; the handler also covers func_timeout's FunctionTimedOut, which a refine timeout raises and which does NOT derive from Exception: finding F28), tasks are enqueued with their index in order, __call__ takes exactly n_tasks
    results and stores each at its own index in a pre-allocated list, and re-raises the first error in index order only after all results are in *)
 Theorem C13_source_is_the_modelled_system :
-  PM_worker_catches = true /\ PM_worker_always_puts = true /\ PM_tasks_put_in_order = true /\ PM_receives_n_results = true /\
+  PM_worker_catches = true /\ PM_worker_catches_refine_timeout = true /\ PM_worker_always_puts = true /\ PM_tasks_put_in_order = true /\ PM_receives_n_results = true /\
   PM_results_stored_by_index = true /\ PM_first_error_in_index_order = true.
 Proof. repeat split; reflexivity. Qed.
 
